@@ -776,13 +776,19 @@ func (z *Decimal) FMA(x, y, u *Decimal) *Decimal {
 	}
 
 	if u.form == zero {
-		return z.Mul(x, y)
+		uneg := u.neg // u may alias z
+		z.Mul(x, y)
+		if z.form == zero && z.acc == Exact && z.neg != uneg {
+			// exact zero product plus a zero of the opposite sign
+			z.neg = z.mode == ToNegativeInf
+		}
+		return z
 	}
 	// 0 < |u| <= Inf
 
 	// avoid trashing z if u == z
 	z0 := z
-	if alias(z.mant, u.mant) {
+	if z == u || alias(z.mant, u.mant) {
 		z0 = new(Decimal)
 		z0.mode = z.mode
 		z0.prec = z.prec
